@@ -376,13 +376,11 @@ func depthGuarded(p *Prog, comp []*ssa.Function, sites []*recSite) (bool, string
 	if !ok {
 		return false, "depth counter is not threaded through every call of the cycle", bad
 	}
-	// every cycle must pass through a guard: the SCC minus guards must be acyclic
+	// every cycle must contain a guarded edge: a call made by a guard function after its limit
+	// check passed, handing on the incremented counter. Edges that are not guarded must be acyclic.
 	adj := map[*ssa.Function][]*ssa.Function{}
 	for _, s := range sites {
-		if _, isG := guards[s.e.Caller]; isG {
-			continue
-		}
-		if _, isG := guards[s.e.Callee]; isG {
+		if _, isG := guards[s.e.Caller]; isG && guardedEdge(p, s.e, depthPar[s.e.Callee]) {
 			continue
 		}
 		adj[s.e.Caller] = append(adj[s.e.Caller], s.e.Callee)
@@ -1170,4 +1168,49 @@ func subComponents(sites []*recSite) [][]*recSite {
 		}
 	}
 	return out
+}
+
+// guardedEdge: the call is made by a guard function, only after its "counter+k > limit" test
+// failed (i.e. the limit is not exceeded), and passes the incremented counter on.
+func guardedEdge(p *Prog, e *Edge, calleeDepth *ssa.Parameter) bool {
+	fn := e.Caller
+	if e.Kind == "funcarg" || e.Kind == "extcallback" {
+		return false
+	}
+	sb := e.Site.Block()
+	for _, b := range fn.Blocks {
+		iff, ok := b.Instrs[len(b.Instrs)-1].(*ssa.If)
+		if !ok {
+			continue
+		}
+		bo, ok := iff.Cond.(*ssa.BinOp)
+		if !ok || (bo.Op != token.GTR && bo.Op != token.GEQ) {
+			continue
+		}
+		if _, isC := bo.Y.(*ssa.Const); !isC {
+			continue
+		}
+		par, inc, ok := intOrigin(p, bo.X, map[ssa.Value]bool{})
+		if !ok || inc < 1 || par.Parent() != fn || !blockReturnsError(b.Succs[0]) {
+			continue
+		}
+		pass := b.Succs[1]
+		if !(pass == sb || pass.Dominates(sb)) {
+			continue
+		}
+		// the counter handed on is at least the tested (incremented) value
+		if calleeDepth == nil {
+			continue
+		}
+		j := paramIndex(e.Callee, calleeDepth)
+		args := e.Site.Common().Args
+		if j < 0 || j >= len(args) {
+			continue
+		}
+		q, ainc, ok := intOrigin(p, args[j], map[ssa.Value]bool{})
+		if ok && q == par && ainc >= inc {
+			return true
+		}
+	}
+	return false
 }
